@@ -22,7 +22,7 @@ RULE = (
     "unary - abs() .abs() .sign()) x (value assignment family) with rotating operand storage "
     "provenance (C, Fortran, strided view, transposed buffer); a case is non-trivial when an operand "
     "has a dimension with >= 2 items, so that matching by label is observable; every case is distinct "
-    "by construction (no configuration is generated twice)"
+    "by construction (no configuration is generated twice); for 5 of the assignment families every case is also run in history mode: decoy arrays of the same dims went through in-place abs / sign / cumsum and the same operator, the operator was applied to the operands once, and the operands were overwritten in place before the operator is applied again"
 )
 ASSUMPTIONS = [
     "values range over finite separating alphabets (distinct powers of two, positional codes, "
@@ -51,6 +51,7 @@ ASSIGN = {
 }
 QUICK_ASSIGN = ("pow2", "signed", "primes", "halfpow", "base", "intx", "inty", "tiny")
 TOL = 1e-14
+HISTORY_ASSIGN = ("base", "primes", "halfpow", "signed", "intx")
 
 
 def _ops():
@@ -125,8 +126,13 @@ def units(tier, seed):
     return out
 
 
-def run_case(pattern, lx, ly, assign, opname):
-    """returns (outcome class, failure dict or None)"""
+def run_case(pattern, lx, ly, assign, opname, mode="fresh"):
+    """returns (outcome class, failure dict or None).
+    mode 'fresh': operands built, operator applied once.
+    mode 'history': the same question asked of a process and of operands with a PAST - decoy arrays of
+    the same dims went through in-place abs / sign / cumsum and through the same operator first, the
+    operator was already applied to these very operands once, and the operands' values were then
+    overwritten in place (values doubled: exact) before the operator is applied again."""
     items = S.items_for(pattern)
     xmk, ymk, groups, (px, py) = ASSIGN[assign]
     group, impl, model, tol = OPS[opname]
@@ -136,10 +142,45 @@ def run_case(pattern, lx, ly, assign, opname):
         fy = lambda lab: fy0(lab) % 4  # small integer exponents
     X = S.flodym_array(lx, items, fx, px)
     Y = S.flodym_array(ly, items, fy, py)
+    case = dict(pattern=pattern, lx=lx, ly=ly, assign=assign, op=opname, mode=mode)
+    decoy_snap = None
+    if mode == "history":
+        fz = S.val_base(3, 5)(lx, items)
+        Z = S.flodym_array(lx, items, lambda lab: -fz(lab), "C")
+        W = S.flodym_array(ly, items, S.val_halfpow(1)(ly, items), "C")
+
+        def prelude():
+            Z.abs(inplace=True)
+            Z.sign(inplace=True)
+            if lx:
+                Z.cumsum(lx[0], inplace=True)
+            try:
+                impl(Z, W)
+            except Exception:
+                pass
+            try:
+                impl(X, Y)
+            except Exception:
+                pass
+
+        st0, info0 = attempt(prelude)
+        if st0 == "raised":
+            return "fail", dict(case=case, tags=dict(op=opname, kind="prelude-raised"), what=f"in-place abs/sign/cumsum on an unrelated array raised {info0}")
+        decoy_snap = (Z.values.copy(), W.values.copy())
+        if group not in ("pow", "powtol"):
+            scale = 2 if px != "Cint" and py != "Cint" else 2
+            fx1, fy1 = fx, fy
+            fx = lambda lab: fx1(lab) * 2
+            fy = lambda lab: fy1(lab) * 2
+            # overwrite the operands in place, through two different public routes
+            X[...] = S.ndarray_for(lx, items, fx, "F").astype(X.values.dtype)
+            Y.values[...] = S.ndarray_for(ly, items, fy, "C")
     mx, my = R.build(lx, items, fx), R.build(ly, items, fy)
     want = model(mx, my)
     status, got = attempt(lambda: impl(X, Y))
-    case = dict(pattern=pattern, lx=lx, ly=ly, assign=assign, op=opname)
+    if decoy_snap is not None and status == "ok":
+        if not (np.array_equal(Z.values, decoy_snap[0]) and np.array_equal(W.values, decoy_snap[1])):
+            return "fail", dict(case=case, tags=dict(op=opname, kind="unrelated-array-changed"), what=f"{opname} on x, y changed an unrelated array that had earlier been modified in place")
     if want is None:
         if status == "raised":
             return "refused-as-required", None
@@ -178,20 +219,23 @@ def run_unit(u):
                 continue
             if group in Y_INDEPENDENT and ly != ():
                 continue  # scalar / unary forms do not involve y: run them once per x arrangement
-            oc, f = run_case(pattern, "".join(lx), "".join(ly), assign, opname)
-            res["evals"] += 1
-            nt = nontriv_pair if group not in Y_INDEPENDENT else any(len(items[l]) >= 2 for l in lx)
-            res["nontrivial"] += 1 if nt else 0
-            res["outcomes"][oc] = res["outcomes"].get(oc, 0) + 1
-            if f:
-                res["fails"].append(f)
+            for mode in ("fresh", "history"):
+                if mode == "history" and assign not in HISTORY_ASSIGN:
+                    continue
+                oc, f = run_case(pattern, "".join(lx), "".join(ly), assign, opname, mode)
+                res["evals"] += 1
+                nt = nontriv_pair if group not in Y_INDEPENDENT else any(len(items[l]) >= 2 for l in lx)
+                res["nontrivial"] += 1 if nt else 0
+                res["outcomes"][oc + ("" if mode == "fresh" else " (with history)")] = res["outcomes"].get(oc + ("" if mode == "fresh" else " (with history)"), 0) + 1
+                if f:
+                    res["fails"].append(f)
     if lx == ("b", "a") and ly == ("a", "c") and pattern == "all2":
         res["samples"].append(dict(pattern=pattern, x_dims=lx, y_dims=ly, assignment=u["assigns"][0], op="x+y", meaning="result over ('a',) = marginal of x over b + marginal of y over c"))
     return res
 
 
 def replay(case):
-    oc, f = run_case(case["pattern"], case["lx"], case["ly"], case["assign"], case["op"])
+    oc, f = run_case(case["pattern"], case["lx"], case["ly"], case["assign"], case["op"], case.get("mode", "fresh"))
     return [f] if f else []
 
 ENGINE = "E1-enumeration"
